@@ -140,6 +140,19 @@ class Scheduler(object):
             if n > max_steps:
                 raise Deadlock("step limit")
 
+    def quiesce(self, chooser=None, max_steps=100000):
+        """Run until no managed thread can make a step (threads parked on locks / queues / predicates may remain)."""
+        n = 0
+        while True:
+            r = self.runnable()
+            if not r:
+                return n
+            t = chooser(r, self) if chooser else r[0]
+            self.step(t)
+            n += 1
+            if n > max_steps:
+                raise Deadlock("step limit while waiting for quiescence")
+
     def kill(self):
         """Unblock and discard all parked threads (end of a run)."""
         self.killing = True
